@@ -38,6 +38,7 @@ class PolicyScheduler:
         self.errors = {}
         self.trace = []
         self.opcount = {}
+        self.writers = {}         # pack name -> actors that wrote its indices
         self.sleeping = set()
         self.pending = None
         self.steps = 0
@@ -55,6 +56,9 @@ class PolicyScheduler:
             self.trace.append((a, op, path))
             if len(self.trace) > 400:
                 del self.trace[:200]
+            if op == "open_write_stream" and "/indices/" in path:
+                stem = path.rsplit("/", 1)[-1].split(".", 1)[0]
+                self.writers.setdefault(stem, set()).add(a)
             if interesting(op, path):
                 n = self.opcount[a] = self.opcount.get(a, 0) + 1
                 k = self.switch_ops.get((a, n))
